@@ -62,4 +62,15 @@ let c15_remap body =
 (* out: 1 when the source has the repaired shape *)
 let c15_fact _ = bool_s remap_below_divider
 
-let () = run_driver ["c15-cmp", c15_cmp; "c15-print", c15_print; "c15-gram", c15_gram; "c15-remap", c15_remap; "c15-fact", c15_fact] []
+(* in: (CONTENT ...) code points of commit objects
+   out: ((tree (parent)?) ...) as scanned by the source's loop, then (spec ...) the header-only reading *)
+let c15_meta body =
+  match parse_many body with
+  | [cs] ->
+      let one f c = let (t, p) = f (str_of c) in
+        L [show_str t; (match p with None -> L [] | Some q -> L [show_str q])] in
+      show (L (List.map (one commit_meta) (list cs))) ^ " " ^
+      show (L (Sym "spec" :: List.map (one header_meta) (list cs)))
+  | _ -> failwith "c15-meta: bad case"
+
+let () = run_driver ["c15-cmp", c15_cmp; "c15-print", c15_print; "c15-gram", c15_gram; "c15-remap", c15_remap; "c15-fact", c15_fact; "c15-meta", c15_meta] []
